@@ -834,6 +834,18 @@ def run(ctx):
     for i in range(0, len(DF), 250):
         progs.append(("declforms", "c11", declforms_program(DF[i:i + 250], i)[0]))
 
+    # every keyword that can BEGIN a block-scope declaration (6.7p1: storage class, type specifier, qualifier, function specifier, alignment
+    # specifier; 6.7.10), as the first token of a statement and of the first clause of a `for`: one function per line, judged line by line
+    BLOCKDECLS = ["typedef int T_;", "extern int e_;", "static int s_;", "auto int a_;", "register int r_;", "_Thread_local static int t_;", "static _Thread_local int t2_;",
+                  "const int c_ = 1;", "volatile int v_;", "_Atomic int at_;", "_Atomic(int) at2_;", "_Noreturn void nr_(void);", "inline int in_(void);", "void *vp_;", "char ch_;", "short sh_;", "int i_;",
+                  "long l_;", "signed si_;", "unsigned u_;", "float f_;", "double d_;", "_Bool b_;", "_Complex double cd_;", "double _Complex cd2_;", "struct S_ { int m; } s1_;",
+                  "union U_ { int m; } u1_;", "enum E_ { A_ } e1_;", "_Alignas(8) int al_;", "_Alignas(double) char al2_[8];", "_Static_assert(1, \"ok\");", "int _Alignas(8) al3_;",
+                  "static _Alignas(16) char al4_[16];", "_Alignas(int) _Alignas(8) int al5_;", "long long ll_; unsigned char uc_;", "struct S_ *ps_;", "enum E_ e2_;", "const char *const cc_ = 0;"]
+    bd_lines = ["void bd%d(void) { %s }" % (j, d_) for j, d_ in enumerate(BLOCKDECLS)]
+    bd_lines += ["void bf%d(void) { for (%s ; ) break; }" % (j, d_) for j, d_ in enumerate(x for x in BLOCKDECLS if "{" not in x and "typedef" not in x and "_Static_assert" not in x and "(void)" not in x)]
+    bd_lines += ["void bl%d(int x) { if (x) { %s } else { L%d: ; %s } switch (x) { case 1: ; %s } }" % (j, d_, j, d_, d_) for j, d_ in enumerate(BLOCKDECLS[::3])]
+    progs.append(("blockdecl", "c11", "\n".join(bd_lines) + "\n"))
+
     def gcc_ok(p):
         fam, std, text = p
         # c11: plain acceptance; older dialects: pedantic errors ON (no -w), so that C11-only keywords are not let through as extensions
@@ -846,7 +858,7 @@ def run(ctx):
     good = [p for p, (ok, _) in zip(progs, oks) if ok]
     # typedgen: gcc rejects single lines on purpose; keep the lines it accepts
     for p, (ok, err) in zip(progs, oks):
-        if not ok and p[0] in ("typedgen", "declforms"):
+        if not ok and p[0] in ("typedgen", "declforms", "blockdecl"):
             bad = set(int(m.group(1)) for m in re.finditer(r"<stdin>:(\d+):\d+: error", err))
             keep = [l for i, l in enumerate(p[2].split("\n"), 1) if i not in bad]
             good.append((p[0], p[1], "\n".join(keep) + "\n"))
